@@ -145,6 +145,16 @@ def run(ctx):
             continue
         bm = BillingModel.from_dict(_doc(tz, st, rng))
         daily = bm.predict(rd)
+        # a user works on the frame the data object hands out (a what-if on "a copy") between the daily and the aggregated prediction:
+        # the aggregated rows are still those of the data object's own days
+        try:
+            scratch = rd.df
+            scratch["temperature"] = scratch["temperature"] + 8.0
+            if "observed" in scratch.columns:
+                scratch["observed"] = scratch["observed"] * 0.9
+            desc = dict(desc, scratch_edit_of_handed_out_frame=True)
+        except Exception:  # noqa
+            pass
         for aggname, k in (("monthly", 1), ("bimonthly", 2)):
             res["evaluations"] += 1
             try:
